@@ -63,7 +63,7 @@ package allocators
 //@   modifies alloc_ok, outst(self)
 // (alloc_ok counts successful calls: bookkeeping of the call rule, not of the implementations)
 //@   ensures[callsite] (ret1 == nil ==> alloc_ok == old(alloc_ok) + 1) && (ret1 != nil ==> alloc_ok == old(alloc_ok))
-//@   ensures ret1 == nil ==> ((len(ret0.IP) == 16 || len(ret0.IP) == 4) && ret0.IP != nil)
+//@   ensures ret1 == nil ==> ((len(ret0.IP) == 16 || len(ret0.IP) == 4) && ret0.IP != nil && (!v4pool(self) ==> len(ret0.IP) == 16))
 // C02/C08: a successful allocation is a block of the pool that was not outstanding, and the view
 // grows by exactly that block; a failed one changes nothing
 //@   ensures[C02,C04,C08:fresh-block-of-the-pool] ret1 == nil ==> (!old(outst(self))[blockkey(ret0.IP)] && poollo(self) <= blockkey(ret0.IP) && blockkey(ret0.IP) <= poolhi(self) && \
